@@ -6,6 +6,7 @@ import (
 	"bytes"
 	"encoding/json"
 	"fmt"
+	"go/token"
 	"go/types"
 	"math"
 	"os"
@@ -13,6 +14,9 @@ import (
 	"sort"
 	"strconv"
 	"strings"
+	"unicode"
+
+	"golang.org/x/tools/go/ssa"
 )
 
 type intrinsic func(fr *frame, args []value) value
@@ -143,6 +147,79 @@ func init() {
 		}
 		return math.Abs(a[0].(float64))
 	})
+	// sync.Pool: Get hands out a fresh object from New (one legal behaviour of a pool: it may
+	// always miss); what Put hands in becomes reachable from the pool, i.e. shared, so that a
+	// later write to it by the same statement is seen by the write monitor
+	l("(*sync.Pool).Get", func(fr *frame, a []value) value {
+		p, ok := a[0].(*value)
+		if !ok || p == nil {
+			panic(outOfReach{"sync.Pool.Get on an unsupported receiver"})
+		}
+		st, ok := (*p).(structure)
+		if !ok || len(st) < 6 {
+			panic(outOfReach{"sync.Pool layout"})
+		}
+		switch st[5].(type) {
+		case *closure, *ssa.Function:
+			return call(fr, token.NoPos, st[5], nil)
+		}
+		return iface{}
+	})
+	l("(*sync.Pool).Put", func(fr *frame, a []value) value {
+		if I.monitorShared && len(a) > 1 {
+			markSharedFrom(a[1])
+		}
+		return nil
+	})
+	l("strings.ReplaceAll", func(fr *frame, a []value) value {
+		s, ok1 := a[0].(string)
+		old, ok2 := a[1].(string)
+		nw, ok3 := a[2].(string)
+		if ok1 && ok2 && ok3 {
+			checkLazy(s)
+			return strings.ReplaceAll(s, old, nw)
+		}
+		if !ok2 || !ok3 || len(old) == 0 {
+			panic(outOfReach{"strings.ReplaceAll with a symbolic pattern"})
+		}
+		// symbolic text, concrete pattern: left to right, each possible match is a fork
+		sb := strBytes(a[0])
+		var out []value
+		for i := 0; i < len(sb); {
+			if i+len(old) <= len(sb) && I.x.branch(bytesEqTerm(sb[i:i+len(old)], bytesToValues([]byte(old)))) {
+				out = append(out, bytesToValues([]byte(nw))...)
+				i += len(old)
+				continue
+			}
+			out = append(out, sb[i])
+			i++
+		}
+		return mkStr(out)
+	})
+	// unicode predicates and mappings on concrete runes
+	for name, f := range map[string]func(rune) bool{"IsLetter": unicode.IsLetter, "IsDigit": unicode.IsDigit, "IsSpace": unicode.IsSpace,
+		"IsUpper": unicode.IsUpper, "IsLower": unicode.IsLower, "IsNumber": unicode.IsNumber, "IsPunct": unicode.IsPunct} {
+		f := f
+		name := name
+		l("unicode."+name, func(fr *frame, a []value) value {
+			r, ok := a[0].(int32)
+			if !ok {
+				panic(outOfReach{"unicode." + name + " of a symbolic rune"})
+			}
+			return f(r)
+		})
+	}
+	for name, f := range map[string]func(rune) rune{"ToLower": unicode.ToLower, "ToUpper": unicode.ToUpper} {
+		f := f
+		name := name
+		l("unicode."+name, func(fr *frame, a []value) value {
+			r, ok := a[0].(int32)
+			if !ok {
+				panic(outOfReach{"unicode." + name + " of a symbolic rune"})
+			}
+			return f(r)
+		})
+	}
 	l("os.Getenv", func(fr *frame, a []value) value { I.stubs["os.Getenv (returns \"\")"]++; return "" })
 	l("sort.Strings", inSortStrings)
 	l("regexp.Compile", inRegexpCompile)
